@@ -577,6 +577,104 @@ func cmdLang(args []string) {
 			}
 		}
 	}
+	// families of neighbours: a full vector and every vector that differs from it in exactly one metric
+	// (a memo keyed too coarsely makes neighbours collide)
+	if *nvalid > 0 {
+		nfam := *nvalid / 400
+		for k := 0; k < nfam; k++ {
+			if *fam == "v3" {
+				var v v3Vec
+				for i := 0; i < v3N; i++ {
+					v[i] = uint8(rng.Intn(len(v3Defs[i].Codes)))
+					if i >= 8 && rng.Intn(3) == 0 {
+						v[i] = uint8(len(v3Defs[i].Codes) - 1) // the last code of optional metrics more often
+					}
+				}
+				ver := v3Versions[rng.Intn(2)].Label
+				inputs = append(inputs, v3Join(ver, v3Tokens(&v, 22, 0)))
+				for i := 0; i < v3N; i++ {
+					for c := range v3Defs[i].Codes {
+						if uint8(c) != v[i] {
+							w := v
+							w[i] = uint8(c)
+							inputs = append(inputs, v3Join(ver, v3Tokens(&w, 22, 0)))
+						}
+					}
+				}
+			} else {
+				var v v2Vec
+				for i := 0; i < v2N; i++ {
+					v[i] = uint8(rng.Intn(len(v2Defs[i].Codes)))
+				}
+				inputs = append(inputs, v2String(&v, true, true))
+				for i := 0; i < v2N; i++ {
+					for c := range v2Defs[i].Codes {
+						if uint8(c) != v[i] {
+							w := v
+							w[i] = uint8(c)
+							inputs = append(inputs, v2String(&w, true, true))
+						}
+					}
+				}
+			}
+		}
+	}
+	// ordered pairs of single-token defects: defect kind d1 in an earlier token, d2 in a later one
+	{
+		bases := map[string][]string{
+			"v3": {"CVSS:3.1/AV:N/AC:L/PR:N/UI:N/S:U/C:H/I:H/A:H", "CVSS:3.0/AV:L/AC:H/PR:L/UI:R/S:C/C:L/I:N/A:H/E:F/RL:O/RC:C",
+				"CVSS:3.1/AV:N/AC:L/PR:N/UI:N/S:U/C:H/I:H/A:H/E:F/RL:O/RC:C/CR:H/IR:M/AR:L/MAV:A/MAC:H/MPR:L/MUI:R/MS:C/MC:L/MI:N/MA:H"},
+			"v2": {"AV:N/AC:L/Au:N/C:P/I:P/A:C", "AV:N/AC:L/Au:N/C:P/I:P/A:C/E:F/RL:W/RC:C", "AV:N/AC:L/Au:N/C:C/I:C/A:C/E:F/RL:W/RC:C/CDP:H/TD:H/CR:M/IR:M/AR:H"},
+		}[*fam]
+		type mk func(toks []string, at int) []string
+		ins := func(t string) mk {
+			return func(toks []string, at int) []string {
+				return append(append(append([]string{}, toks[:at]...), t), toks[at:]...)
+			}
+		}
+		repl := func(f func(string) string) mk {
+			return func(toks []string, at int) []string {
+				out := append([]string{}, toks...)
+				if at < len(out) {
+					out[at] = f(out[at])
+				}
+				return out
+			}
+		}
+		defects := []mk{
+			ins("XX:N"), ins("E:H"), ins("MAV:N"), ins("CDP:H"), // unsupported / higher-level names
+			ins("AV"), ins(""), ins("AV:N:N"), ins(":N"), // malformed tokens
+			func(toks []string, at int) []string { return ins(toks[len(toks)/2])(toks, at) }, // duplicate of an existing token
+			repl(func(t string) string { return strings.SplitN(t, ":", 2)[0] + ":Z" }),       // unknown value
+			repl(func(t string) string { return strings.ToLower(t) }),                        // lower case
+			func(toks []string, at int) []string { // one token dropped
+				if at >= len(toks) {
+					return toks
+				}
+				return append(append([]string{}, toks[:at]...), toks[at+1:]...)
+			},
+		}
+		for _, b := range bases {
+			parts := strings.Split(b, "/")
+			first := 0
+			if *fam == "v3" {
+				first = 1
+			}
+			for d1 := range defects {
+				for d2 := range defects {
+					for _, pos := range [][2]int{{first, len(parts) - 1}, {first + 1, first + 3}, {len(parts) - 2, len(parts)}, {first + 2, len(parts)}} {
+						if pos[0] >= len(parts) || pos[1] > len(parts) || pos[0] >= pos[1] {
+							continue
+						}
+						// apply the later edit first so that positions stay valid
+						t := defects[d2](parts, pos[1])
+						t = defects[d1](t, pos[0])
+						inputs = append(inputs, strings.Join(t, "/"))
+					}
+				}
+			}
+		}
+	}
 	for i := 0; i < *long; i++ {
 		var s string
 		valid := "CVSS:3.1/AV:N/AC:L/PR:N/UI:N/S:U/C:H/I:H/A:H"
